@@ -61,6 +61,10 @@ class VecSpec:
     uses_int: bool = False
     nested: str = "nested_samples"
     doc: str = ""
+    rec_params: Dict[str, Tuple[str, str]] = field(default_factory=dict)    # record-array parameter -> (lean name of its logL column, of its logW column)
+    opt_rec_params: Dict[str, str] = field(default_factory=dict)            # Optional record-array parameter -> lean name (Option (List K × List K))
+    result_attrs: Sequence[str] = ()                       # a method without return value: the attributes it leaves, as a tuple
+    extra_binders: str = ""                                # binders used by derived attributes
     uses_ex: bool = False                                  # the exponential is needed (a logarithm written out as a real)
     lsum: str = "lsum"                                    # name of the sum primitive in the target namespace
     vec_calls: Dict[str, str] = field(default_factory=dict)   # python callee of two vectors -> Lean binary operator (elementwise)
@@ -128,6 +132,35 @@ class _V:
             if tl == LOG and tr == VLOG:
                 return VLOG, f"(cumprodFrom {l} {r})"
             self.fail(e, "cumulative sum outside the fragment")
+        if isinstance(e, ast.Subscript) and isinstance(e.value, ast.Name) and isinstance(e.slice, ast.Constant) \
+                and e.slice.value in ("logL", "logW"):
+            k = 0 if e.slice.value == "logL" else 1
+            if e.value.id in sp.rec_params:
+                return VLOG, sp.rec_params[e.value.id][k]
+            if e.value.id in env and env[e.value.id][0] == "RECPAIR":
+                return VLOG, f"{env[e.value.id][1]}.{k + 1}"
+            self.fail(e, "column of something that is not a declared record array")
+        if isinstance(e, ast.Call) and ast.unparse(e.func) == "np.concatenate" and len(e.args) == 1 and isinstance(e.args[0], ast.List) \
+                and len(e.args[0].elts) == 2 and not e.keywords:
+            (ta, a), (tb, b) = self.expr(e.args[0].elts[0], env), self.expr(e.args[0].elts[1], env)
+            if ta == VLOG and tb == VLOG:
+                return VLOG, f"({a} ++ {b})"
+            self.fail(e, "np.concatenate of something else than two log vectors")
+        if isinstance(e, ast.Call) and ast.unparse(e.func) == "len" and len(e.args) == 1 and isinstance(e.args[0], ast.Name) \
+                and e.args[0].id in sp.rec_params:
+            return NAT, f"{sp.rec_params[e.args[0].id][0]}.length"       # a record array has one row per entry of its columns
+        if isinstance(e, ast.Attribute) and e.attr == "size":
+            t, v = self.expr(e.value, env)
+            if t in (VLOG, VLIN):
+                return NAT, f"{v}.length"
+            self.fail(e, ".size of something that is not a vector")
+        if isinstance(e, ast.Call) and ast.unparse(e.func) == "np.log" and len(e.args) == 1:
+            try:
+                t, v = self.expr(e.args[0], env)
+            except TranslationError:
+                t = None
+            if t == NAT:
+                return LOG, f"(({v} : Nat) : K)"          # the logarithm of a count: as a log-domain number, the count itself
         if text == "-np.inf":
             return LOG, "0"                                  # the log of zero
         if text == "np.log(2)":
@@ -283,6 +316,11 @@ class _V:
     def _block(self, stmts, env, ind) -> str:
         pad = "  " * ind
         if not stmts:
+            if self.spec.result_attrs:
+                missing = [a for a in self.spec.result_attrs if a not in self.local_attrs]
+                if missing:
+                    raise TranslationError(f"{self.spec.func}: attributes {missing} are not assigned on every path")
+                return f"{pad}(" + ", ".join(self.local_attrs[a][0] for a in self.spec.result_attrs) + ")"
             raise TranslationError(f"{self.spec.func}: control reaches the end of the function without a return")
         st, rest = stmts[0], stmts[1:]
         if isinstance(st, ast.Expr) and isinstance(st.value, ast.Constant):
@@ -303,6 +341,10 @@ class _V:
             if self.spec.result.startswith("Option"):
                 return f"{pad}some {v}"
             return f"{pad}{v}" if self.spec.result in ("K", "Nat", "List K") else f"{pad}.ok {v}"
+        if isinstance(st, ast.Assign) and len(st.targets) == 1 and isinstance(st.targets[0], ast.Attribute) \
+                and isinstance(st.targets[0].value, ast.Name) and st.targets[0].value.id == "self" \
+                and ast.unparse(st.value) == "None" and st.targets[0].attr not in self.spec.result_attrs:
+            return self.block(rest, env, ind)              # an attribute outside the modelled result reset to None
         if isinstance(st, ast.Assign) and len(st.targets) == 1 and isinstance(st.targets[0], ast.Attribute) \
                 and isinstance(st.targets[0].value, ast.Name) and st.targets[0].value.id == "self":
             # an attribute that is only read back by this function: a local
@@ -361,6 +403,20 @@ class _V:
                     and isinstance(st.body[0].value, ast.Tuple) and len(st.body[0].value.elts) == 2
                     and ast.unparse(st.body[0].value.elts[0]) == ast.unparse(st.orelse[0].value)):
                 return self.block([st.body[0]], env, ind)
+            if isinstance(st.test, ast.Compare) and len(st.test.ops) == 1 and isinstance(st.test.ops[0], ast.IsNot) \
+                    and ast.unparse(st.test.comparators[0]) == "None" and isinstance(st.test.left, ast.Name) \
+                    and st.test.left.id in self.spec.opt_rec_params:
+                nm = st.test.left.id
+                ln = self.spec.opt_rec_params[nm]
+                bound = self.fresh(nm)
+                env_some = dict(env)
+                env_some[nm] = ("RECPAIR", bound)
+                saved = dict(self.local_attrs)
+                a = self.block(list(st.body) + rest, env_some, ind + 1)
+                self.local_attrs = dict(saved)
+                b = self.block(list(st.orelse) + rest, env, ind + 1)
+                self.local_attrs = saved
+                return f"{pad}match {ln} with\n{pad}| some {bound} =>\n{a}\n{pad}| none =>\n{b}"
             c = self.str_cond(st.test, env)
             if c is not None:
                 a = self.block(list(st.body) + rest, env, ind + 1)
@@ -374,7 +430,7 @@ def translate(repo, spec: VecSpec) -> Tuple[str, dict]:
     text = (Path(repo) / spec.source).read_text()
     fn = find_function(ast.parse(text), spec.func, spec.cls)
     got = [a.arg for a in fn.args.args]
-    want = (["self"] if spec.cls else []) + [p for p, _, _ in spec.params]
+    want = (["self"] if spec.cls else []) + [p for p, _, _ in spec.params] + list(spec.rec_params) + list(spec.opt_rec_params)
     if got != want or fn.args.vararg or fn.args.kwarg or fn.args.kwonlyargs:
         raise TranslationError(f"{spec.func}: signature {got} differs from the modelled one {want}")
     v = _V(spec)
@@ -391,10 +447,17 @@ def translate(repo, spec: VecSpec) -> Tuple[str, dict]:
     if spec.uses_int:
         params.append("(intOf : K → Nat)")
     for _, (ln, ty) in spec.self_attrs.items():
-        params.append(f"({ln} : {LEAN_TY[ty]})")
+        if not ln.startswith("("):                         # a derived attribute (a property written as a term over other binders)
+            params.append(f"({ln} : {LEAN_TY[ty]})")
+    if getattr(spec, "extra_binders", ""):
+        params.append(spec.extra_binders)
     for py, ln, ty in spec.params:
         if ln is not None:
             params.append(f"({ln} : {LEAN_TY[ty]})")
+    for _, (a_, b_) in spec.rec_params.items():
+        params.append(f"({a_} {b_} : List K)")
+    for _, ln in spec.opt_rec_params.items():
+        params.append(f"({ln} : Option (List K × List K))")
     if spec.uses_uniforms:
         params.append("(u : List K)")
     seg = ast.get_source_segment(text, fn) or ""
